@@ -1057,7 +1057,6 @@ thread_local! {
 
 fn cmd_faults(args: &[String]) {
     use stun_rs::attributes::stun::{Fingerprint, MessageIntegrity, MessageIntegritySha256};
-    use stun_rs::{Algorithm, AlgorithmId};
     let out = arg(args, "--out", "out");
     let seed: u64 = arg(args, "--seed", "1").parse().unwrap();
     let n: usize = arg(args, "--messages", "20").parse().unwrap();
